@@ -126,3 +126,57 @@ def bulk_rcrit_proposal(fn):
         if len(prop) == 1:
             return prop[0], st, has_min
     return None, st, False
+
+
+def working_slice_is_fresh(repo, ctx, rule):
+    """PrecipitationData.copySlice hands out the working record (`_currY`) that mass balance, nucleation and growth write into
+    in place.  It must not share memory with the history arrays: values are transferred by element stores into the arrays of
+    a newly constructed record, or by rebinding to an explicit copy - never by rebinding to an index / slice expression of a
+    history array (a numpy view: writing the working record would rewrite the recorded row)."""
+    PP_ = 'kawin/precipitation/PrecipitationParameters.py'
+    q = 'PrecipitationData.copySlice'
+    f = repo.func(PP_, q)
+    rets = [r for r in ast.walk(f) if isinstance(r, ast.Return) and r.value is not None]
+    names = {r.value.id for r in rets if isinstance(r.value, ast.Name)}
+    if len(rets) != 1 or len(names) != 1:
+        ctx.undecided(rule, PP_, q, f, 'copySlice does not return one named record')
+        return
+    R = names.pop()
+    created = [s for s in ast.walk(f) if isinstance(s, ast.Assign) and any(isinstance(t, ast.Name) and t.id == R for t in s.targets)]
+    fresh = len(created) == 1 and isinstance(created[0].value, ast.Call) and (U.call_name(created[0].value) or '').split('.')[-1] == 'PrecipitationData'
+    ctx.check(fresh, rule, PP_, q, created[0] if created else f, 'the record handed out is a newly constructed PrecipitationData',
+              'the record handed out by copySlice is not a newly constructed PrecipitationData: the working state aliases another record', construct='copySlice: record construction')
+    COPIES = ('np.array', 'np.copy', 'copy.deepcopy', 'copy.copy', 'np.zeros', 'np.zeros_like', 'np.full', 'np.ones')
+
+    def is_copy(v):
+        if isinstance(v, ast.Call):
+            nm = U.call_name(v) or ''
+            if nm in COPIES and not any(k.arg == 'copy' for k in v.keywords):
+                return True
+            if isinstance(v.func, ast.Attribute) and v.func.attr == 'copy':
+                return True
+        return False
+    n = 0
+    for s in ast.walk(f):
+        tgt_val = None
+        if isinstance(s, ast.Expr) and isinstance(s.value, ast.Call) and isinstance(s.value.func, ast.Name) and s.value.func.id == 'setattr' and len(s.value.args) == 3 \
+                and isinstance(s.value.args[0], ast.Name) and s.value.args[0].id == R:
+            tgt_val = s.value.args[2]
+        elif isinstance(s, ast.Assign) and any(isinstance(t, ast.Attribute) and isinstance(t.value, ast.Name) and t.value.id == R for t in s.targets):
+            tgt_val = s.value
+        elif isinstance(s, ast.Assign) and any(isinstance(t, ast.Subscript) for t in s.targets):
+            for t in s.targets:
+                b = t
+                while isinstance(b, ast.Subscript):
+                    b = b.value
+                if (isinstance(b, ast.Call) and isinstance(b.func, ast.Name) and b.func.id == 'getattr' and b.args and isinstance(b.args[0], ast.Name) and b.args[0].id == R) \
+                        or (isinstance(b, ast.Attribute) and isinstance(b.value, ast.Name) and b.value.id == R):
+                    n += 1          # element store into the new record's own array: the data is copied
+        if tgt_val is not None:
+            n += 1
+            reads_history = any((isinstance(x, ast.Call) and isinstance(x.func, ast.Name) and x.func.id == 'getattr' and x.args and isinstance(x.args[0], ast.Name) and x.args[0].id == 'self')
+                                or (isinstance(x, ast.Attribute) and isinstance(x.value, ast.Name) and x.value.id == 'self') for x in ast.walk(tgt_val))
+            ctx.check(is_copy(tgt_val) or not reads_history, rule, PP_, q, s, 'a field of the working record is rebound to an explicit copy',
+                      f'a field of the working record is rebound to {U.src(tgt_val)[:60]}, an index/slice expression of a history array (a numpy view): the in-place updates of the working state '
+                      'during a step overwrite the row already recorded', construct=U.src(s)[:100])
+    ctx.floor(rule + '/transfers', n, 1)
